@@ -103,7 +103,7 @@ class DType:
         else:
             out += f"{self.template_name or self.name};n{self.handle:X}".encode("ascii") + b"\x00"
         for m in self.members:
-            out += m.name.encode("ascii") + b"\x00"
+            out += (b"" if getattr(m, "unnamed", False) else m.name.encode("ascii")) + b"\x00"
         return out
 
     def definition_size(self):
@@ -331,6 +331,16 @@ def make_udt(prj, rng, name, pool, used_ids, depth, max_members=12):
         i += 1
     if ctl_bits == 31:  # the status word hosts at least one visible BOOL: that is what makes it an internal host member
         members.append(Member(_name(rng, used, rng.choice([2, 2, 3, 6])), ATOM_TYPES["BOOL"], 3, bit=7))
+    if rng.random() < 0.12:
+        # reserved / pad members WITHOUT a name at the end of the definition (module-defined and predefined types have them): an empty
+        # string in the template's name block.  Not user-visible; the reference calls them what the library does (`__unknown<n>`).
+        for k_ in range(rng.choice([1, 1, 2])):
+            dt = ATOM_TYPES[rng.choice(["SINT", "INT", "DINT"])]
+            off = (off + dt.align() - 1) // dt.align() * dt.align()
+            pad = Member(f"__unknown{k_}", dt, off)
+            pad.unnamed = True
+            members.append(pad)
+            off += dt.size
     t.members = members
     al = t.align()
     t.size = max(4, (off + al - 1) // al * al)
